@@ -8,6 +8,7 @@ import traceback
 import z3
 
 from . import sym
+from . import floats  # noqa: F401  (registers the float model)
 from .interp import Interp, SOURCES_SEEN
 from .models import SymBytes, mkbytes
 from .sym import (
